@@ -132,7 +132,41 @@ class C04(Property):
         res.append(self._rest(i2, [], "none", 0, fl=True))
         res.append(self._rest([["wh", 101], ["w", [200]]], [], "none", 0))
         res.append(self._rest(i2, [], "cancel", 2, req="ws"))
-        return res + self._cross_product()
+        return self._assign_shapes(res + self._cross_product())
+
+    SHAPES = ["plain", "plain", "plain", "value", "cause", "cause", "cause_nil", "nested", "nested", "detached"]
+
+    @staticmethod
+    def _par(x):
+        """the caller's deadline as the wrapper can see it (a detached context hides its ancestor's)"""
+        return None if x.get("pshape") == "detached" else x.get("parent_ns")
+
+    def _assign_shapes(self, cases):
+        """the caller-supplied context is an input with structure (harness/cmd/c04/ctxshape.go): every case /
+        request / call gets one of plain, value attached, WithCancelCause(custom error), WithCancelCause(nil),
+        cancelled grandparent with a custom cause (deadlines through WithDeadlineCause), WithoutCancel in between;
+        chosen by the hash of the unit, so that replays and shrunk cases keep it"""
+        def pick(unit, salt):
+            if "pshape" in unit:
+                return
+            sh = self.SHAPES[int(vlib.canon_hash([unit, salt]), 16) % len(self.SHAPES)]
+            par = unit.get("parent_ns")
+            if sh == "detached" and (par is None or par < HOUR // 10):
+                sh = "cause"          # a short caller deadline is the Done event of the case: it has to arrive
+            unit["pshape"] = sh
+        for c in cases:
+            k = c.get("kind")
+            if k in ("rest", "zrpc", "fx", "client"):
+                pick(c, 0)
+                if k == "client" and "pre_done" not in c:
+                    c["pre_done"] = int(vlib.canon_hash(c), 16) % 5 == 0 and c["inv_err"] == 0
+            elif k in ("seq", "srv"):
+                for i, q in enumerate(c["reqs"]):
+                    pick(q, i)
+            elif k in ("zseq", "fxseq"):
+                for i, q in enumerate(c["calls"]):
+                    pick(q, i)
+        return cases
 
     def _cross_product(self):
         """every run: the full cross product of timeout settings for the zRPC client interceptor and the zRPC
@@ -264,7 +298,7 @@ class C04(Property):
         cases += self._gen_sseq(rng, (n * 12) // 100)
         if self._slots_enabled():
             cases += self._gen_slots(rng, n - len(cases))
-        return cases
+        return self._assign_shapes(cases)
 
     # sequences: several requests through one middleware instance --------------------
     def _seq_script(self, rng, who, full):
@@ -647,14 +681,17 @@ class C04(Property):
                 run = "^TestVerifC04Seq$"
             pkg, d = "./zrpc/internal/serverinterceptors", "zrpc/internal/serverinterceptors"
             files = {d + "/verif_c04_test.go": os.path.join(OV, "serverinterceptors", "verif_c04_test.go"),
-                     d + "/verif_c04_slotctl_test.go": self._slotctl_copy("serverinterceptors")}
+                     d + "/verif_c04_slotctl_test.go": self._slotctl_copy("serverinterceptors"),
+                     d + "/verif_c04_ctxshape_test.go": self._slotctl_copy("serverinterceptors", "ctxshape.go")}
         elif kind == "client":
             pkg, d = "./zrpc/internal/clientinterceptors", "zrpc/internal/clientinterceptors"
-            files = {d + "/verif_c04_test.go": os.path.join(OV, "clientinterceptors", "verif_c04_test.go")}
+            files = {d + "/verif_c04_test.go": os.path.join(OV, "clientinterceptors", "verif_c04_test.go"),
+                     d + "/verif_c04_ctxshape_test.go": self._slotctl_copy("clientinterceptors", "ctxshape.go")}
         elif kind == "srv":
             pkg = "./rest"
             files = {"rest/verif_c04_test.go": os.path.join(OV, "rest", "verif_c04_test.go"),
-                     "rest/verif_c04_restctl_test.go": self._slotctl_copy("rest", "restctl.go")}
+                     "rest/verif_c04_restctl_test.go": self._slotctl_copy("rest", "restctl.go"),
+                     "rest/verif_c04_ctxshape_test.go": self._slotctl_copy("rest", "ctxshape.go")}
         else:
             raise ExecError("c04: unknown case kind %s" % kind)
         rc, out, res = vlib.go_test_overlay(pkg, files, run=run, cases=sub, tag="c04" + kind, timeout=900)
@@ -716,7 +753,8 @@ class C04(Property):
                 c["id"] = j
             d = "zrpc/internal/serverinterceptors"
             files = {d + "/verif_c04_test.go": os.path.join(OV, "serverinterceptors", "verif_c04_test.go"),
-                     d + "/verif_c04_slotctl_test.go": self._slotctl_copy("serverinterceptors")}
+                     d + "/verif_c04_slotctl_test.go": self._slotctl_copy("serverinterceptors"),
+                     d + "/verif_c04_ctxshape_test.go": self._slotctl_copy("serverinterceptors", "ctxshape.go")}
             rc, out, rs = vlib.go_test_overlay("./" + d, files, run="^TestVerifC04$", cases=z, tag="c04zrace",
                                                timeout=1200, race=True)
             if "DATA RACE" in out:
@@ -727,7 +765,8 @@ class C04(Property):
             for j, c in enumerate(sv):
                 c["id"] = j
             files = {"rest/verif_c04_test.go": os.path.join(OV, "rest", "verif_c04_test.go"),
-                     "rest/verif_c04_restctl_test.go": self._slotctl_copy("rest", "restctl.go")}
+                     "rest/verif_c04_restctl_test.go": self._slotctl_copy("rest", "restctl.go"),
+                     "rest/verif_c04_ctxshape_test.go": self._slotctl_copy("rest", "ctxshape.go")}
             rc, out, rs = vlib.go_test_overlay("./rest", files, run="^TestVerifC04$", cases=sv, tag="c04srvrace",
                                                timeout=1200, race=True)
             if "DATA RACE" in out:
@@ -847,8 +886,8 @@ class C04(Property):
             return self._coq_sseq(case, obs)
         if k == "client":
             return "CClient (mkClient %s %s %s %s %s %s %s)" % (
-                clist([cz(x) for x in case["opts"]]), cz(case["default_ns"]), self._optz(case["parent_ns"]),
-                cz(case["inv_err"]), self._optz(obs["dl_seen_ns"] if obs["has_dl"] else None), cz(obs["t1_ns"]),
+                clist([cz(x) for x in case["opts"]]), cz(case["default_ns"]), self._optz(self._par(case)),
+                cz(case["inv_err"] if case["inv_err"] or not case.get("pre_done") else -2), self._optz(obs["dl_seen_ns"] if obs["has_dl"] else None), cz(obs["t1_ns"]),
                 cz(obs["ret_err"]))
         if k == "srv":
             return self._coq_srv(case, obs)
@@ -870,7 +909,7 @@ class C04(Property):
             hdrs = clist(["(%s, %s)" % (self._bstr(k), self._bstr(v)) for k, v in rin.get("hdrs", [])])
             rs.append("(mkSR %s)" % " ".join([
                 cbool(rin.get("fl", False)), self._hdrs(rin["h0"]), clist([self._act(a) for a in rin["script"]]),
-                copt(dmode), hdrs, cbool(self._srv_amb(rin)), self._optz(rin.get("parent_ns")),
+                copt(dmode), hdrs, cbool(self._srv_amb(rin)), self._optz(self._par(rin)),
                 "%d%%nat" % rin.get("group", 0), sout]
                 + self._wfields(ro["w"]) +
                 [cbool(ro["wrapped"]), self._optz(ro["dl_seen_ns"] if ro["has_dl"] else None),
@@ -926,9 +965,9 @@ class C04(Property):
             script = "(mkW %s (%s, %s) %s)" % (clist(["WCheck" if x == "chk" else "WWork" for x in cin["steps"]]),
                                               cz(cin["bail"][0]), cz(cin["bail"][1]), wfin)
             # a call with an own deadline may be ended by it even if the controller never waited for it
-            dmode = dk.get(i) or ("KDeadline" if cin["parent_ns"] is not None else None)
+            dmode = dk.get(i) or ("KDeadline" if self._par(cin) is not None else None)
             cs.append("(mkSC %s)" % " ".join([
-                script, copt(dmode), self._optz(cin["parent_ns"]), cbool(co["ret"]),
+                script, copt(dmode), self._optz(self._par(cin)), cbool(co["ret"]),
                 self._optz(co["pval"] if co["panicked"] else None), cbool(co["stack"]), cz(co["r"]), cz(co["e"]),
                 self._optz(co["dl_seen_ns"] if co["has_dl"] else None), cz(co["t1_ns"])]))
         sched = clist(["(%d%%nat, %s)" % (i, self._ev(e)) for i, e in o["sched"]])
@@ -944,7 +983,7 @@ class C04(Property):
         fields = [
             "0" if c["kind"] == "zrpc" else "1", script, copt(_kind(c["d"]["mode"])),
             clist(["(%s, %s)" % (cz(m), cz(t)) for m, t in c["confs"]]), cz(c["method"]), cz(c["dur_ns"]),
-            self._optz(c["parent_ns"]),
+            self._optz(self._par(c)),
             clist([self._ev(e) for e in o["sched"]]), clist([self._ares(x) for x in o["hobs"]]),
             cbool(o["ret"]), self._optz(o["pval"] if o["panicked"] else None), cbool(o["stack"]),
             cz(o["r"]), cz(o["e"]), self._optz(o["dl_seen_ns"] if o["has_dl"] else None), cz(o["t1_ns"]),
@@ -984,7 +1023,7 @@ class C04(Property):
         fields = [
             cbool(c.get("fl", False)),
             self._hdrs(c["h0"]), clist([self._act(a) for a in c["script"]]), cz(c["dur_ns"]), rq,
-            self._optz(c["parent_ns"]), copt(_kind(c["d"]["mode"])),
+            self._optz(self._par(c)), copt(_kind(c["d"]["mode"])),
             cbool(o["wrapped"]), clist([self._ev(e) for e in o["sched"]]),
             clist([clist([self._ev(e) for e in alt]) for alt in self._alts(c, o["sched"])]),
             clist([self._ares(x) for x in o["hobs"]]), sout] + self._wfields(o["w"]) + [
@@ -1042,6 +1081,9 @@ class C04(Property):
 
     def features(self, case, obs):
         fs = ["kind=" + case["kind"]]
+        for u in [case] + list(case.get("reqs", [])) + list(case.get("calls", [])):
+            if u.get("pshape"):
+                fs.append("ctx=%s:%s" % (case["kind"], u["pshape"]))
         if case["kind"] == "rest":
             fs.append("rest:mode=" + case["d"]["mode"])
             fs.append("rest:req=" + case["req"])
